@@ -33,7 +33,7 @@ ROLES = ("seq", "size", "hop", "padval")          # parameters of `blocks` by po
 ZROLES = ("seq", "left", "right", "zero")          # parameters of `zero_pad` by position
 
 TRANSLATED = {
-    "lazy_misc.blocks": "shallow: loop1_step / loop2_step / loop_select / tail / blocks_run / hop_bound / blocks_params "
+    "lazy_misc.blocks": "shallow: loop1_step / loop2_step / tail / blocks_run (start state, loop selection) / hop_bound / blocks_params "
                         "(signature, defaults, prelude constants inlined, both loops, the tail clause)",
     "lazy_misc.zero_pad": "shallow: zero_pad (the three loops in their order) / zero_pad_params (signature, defaults)",
 }
